@@ -4,27 +4,26 @@
 (* forms einsum<I,J> and contraction<I,J>, element types f64 / i32, UNIFORM extents 4 (2 when there       *)
 (* are more than four labels) -- so that every pattern whose last label qualifies is vectorised --         *)
 (* and both vector settings (scalar build, SIMD build).                                                   *)
-(*   MC_EinsumDispatch.cfg        INVARIANT AllRoutesRefineL1    -- no exemption: EXPECTED TO BE VIOLATED.   *)
-(*        TLC finds by itself a call whose back end does not execute the terms of the Einstein sum          *)
-(*        (defect classes trace_vectorised / trace_in_flat_route of EinsumDispatch, reported as findings).   *)
-(*   MC_EinsumDispatch_sound.cfg  INVARIANT SoundRoutesRefineL1  -- outside the two classes the obligation    *)
-(*        holds, and the classifiers never select two back ends at once.                                     *)
+(*   INVARIANT AllRoutesRefineL1  the selected back end executes exactly the terms of the Einstein sum (no exemption;       *)
+(*                                on the originally pinned tree TLC violated it with contraction<Index<0>,Index<1,1>>, see     *)
+(*                                the history note in EinsumDispatch)                                                         *)
+(*   INVARIANT OneOverload        the classifiers never select two back ends at once                                         *)
+(*   INVARIANT AllOffered         no classifier evaluation indexes out of bounds (every pattern compiles)                     *)
 EXTENDS GenEinsum
 
 Uniform(labs, e) == [k \in 1..Len(labs) |-> e]
 MCCase(form, T, p) ==
     LET e == IF NoOfUnique(p.la \o p.lb) <= 4 THEN 4 ELSE 2
     IN [form |-> form, T |-> T, la |-> p.la, lb |-> p.lb, sa |-> Uniform(p.la, e), sb |-> Uniform(p.lb, e), out |-> <<>>, v |-> 0]
-MCCases == { MCCase(f, T, p) : f \in {"einsum", "contraction"}, T \in {"f64", "i32"},
-                               p \in {p \in PairPats : IsFull(p) /\ Offered(p.la, p.lb)} }
+MCCases == { MCCase(f, T, p) : f \in {"einsum", "contraction"}, T \in {"f64", "i32"}, p \in {p \in PairPats : IsFull(p)} }
 MCInit == c \in MCCases
 MCSpec == MCInit /\ [][Next]_c
 
 AllRoutesRefineL1 ==
     LET ops == OpsOf(c)  r == RouteOfCase(c)
     IN \A isa \in {"scalar", "sse2"} : RouteRefinesL1(r, ops[1], ops[2], VecStride(c.T, isa, c.la, c.lb, c.sb))
-SoundRoutesRefineL1 == DispatchRefinesL1
 \* at most one of the enable_if conditions of the einsum<I,J>(a,b) overload set holds (otherwise the call would be ambiguous)
+AllOffered == \A p \in PairPats : Offered(p.la, p.lb)          \* all ranks 1..4
 OneOverload ==
     LET pr == IsPairReduction(c.la, c.lb)  mv == IsMatVec(c.la, c.lb)  vm == IsVecMat(c.la, c.lb)  mm == MatMat(c.la, c.lb) = "t"
     IN Cardinality({k \in 1..4 : <<pr, mv, vm, mm>>[k]}) <= 1
